@@ -333,6 +333,10 @@ def replay_path(rec):
         "self.hooks.post_run": "hooks.post_run",
     }
     sites = [site_map[r] for r in raising if r in site_map]
+    if "record_error" in sites:
+        # a double fault (something failed, then record_error failed): the harness site
+        # "record_error" injects both
+        sites = ["record_error"]
     if not sites:
         return {"path": path, "note": "no injectable call on this path"}, False
     o = observe(sites[0], "python", async_=async_)
